@@ -210,7 +210,9 @@ def run(tier, seed, replay=None):
         from harness import gen
         from harness.common import Blob
         for version, creators, data in ((1, ["v1"], gen.UTF8_DIGEST[0]), (2, ["a2", "v2"], gen.UTF8_DIGEST[1]),
-                                        (3, ["a3", "hy"], gen.UTF8_DIGEST[1]), (3, ["hy"], gen.UTF8_DIGEST[0])):
+                                        (3, ["a3", "hy"], gen.UTF8_DIGEST[1]), (3, ["hy"], gen.UTF8_DIGEST[0]),
+                                        (2, ["a2", "v2"], gen.UTF8_ROOT_2PIECES),
+                                        (3, ["a3", "hy"], gen.UTF8_ROOT_2PIECES)):
             for source in ["own"] * len(creators) + ["ref"]:
                 cases.append({"files": [("f.bin", Blob.hexb(data).token())], "pl": 16384, "version": version,
                               "single": True, "source": source, "creator": creators[len(cases) % len(creators)],
